@@ -589,3 +589,190 @@ fn m_skip_object_n7() {
     kani::cover!(r.is_err() && unsafe { NESTED_CALLS } >= 1);
     core::mem::forget(r);
 }
+
+// ---------------------------------------------------------------------------------------------
+// K-block: one 64-byte step of the bitmap container skipper from an arbitrary carry state
+// ---------------------------------------------------------------------------------------------
+
+/// Scalar bracket/quote/escape machine (the definition of what the bitmap step computes).
+fn ref_block_step(
+    d: &[u8; 64],
+    mut in_str: bool,
+    mut esc: bool,
+    mut l: usize,
+    mut r: usize,
+    left: u8,
+    right: u8,
+) -> (Option<u8>, bool, bool, usize, usize) {
+    let mut i = 0;
+    while i < 64 {
+        let c = d[i];
+        if esc {
+            esc = false;
+        } else if c == b'\\' {
+            esc = true;
+        } else if c == b'"' {
+            in_str = !in_str;
+        } else if !in_str {
+            if c == left {
+                l += 1;
+            } else if c == right {
+                r += 1;
+                if r > l {
+                    return (Some(i as u8 + 1), in_str, esc, l, r);
+                }
+            }
+        }
+        i += 1;
+    }
+    (None, in_str, esc, l, r)
+}
+
+/// C10 K-block: for every carry state (inside/outside a string, pending escape, open/close
+/// counters) and every 64-byte block whose bytes are symbolic in a 16-byte window at OFF and
+/// neutral elsewhere, `skip_container_loop` returns exactly what the scalar machine returns
+/// and leaves exactly its carry state (inductive step => any number of blocks).
+fn block_step_body<const OFF: usize>(left: u8, right: u8) {
+    let w: [u8; 16] = kani::any();
+    let mut d = [b'x'; 64];
+    let mut k = 0;
+    while k < 16 {
+        d[OFF + k] = w[k];
+        k += 1;
+    }
+    let in_str: bool = kani::any();
+    let esc: bool = kani::any();
+    let l0: usize = kani::any();
+    let r0: usize = kani::any();
+    kani::assume(l0 < (1 << 20) && r0 <= l0);
+    let mut prev_instring: u64 = if in_str { u64::MAX } else { 0 };
+    let mut prev_escaped: u64 = esc as u64;
+    let mut l = l0;
+    let mut r = r0;
+    let got = skip_container_loop(&d, &mut prev_instring, &mut prev_escaped, &mut l, &mut r, left, right);
+    let (exp, e_in, e_esc, e_l, e_r) = ref_block_step(&d, in_str, esc, l0, r0, left, right);
+    assert_eq!(got.map(|x| x.get()), exp);
+    if exp.is_none() {
+        assert_eq!(prev_instring, if e_in { u64::MAX } else { 0 });
+        assert_eq!(prev_escaped, e_esc as u64);
+        assert_eq!(l, e_l);
+        assert_eq!(r, e_r);
+    }
+    kani::cover!(exp.is_some() && in_str && l0 > r0);
+    kani::cover!(exp.is_none() && e_in && e_esc);
+    kani::cover!(exp.is_none() && e_l > l0 + 2 && e_r > r0 + 1);
+}
+
+#[kani::proof]
+#[kani::unwind(18)]
+fn k_block_step_obj_w0() {
+    block_step_body::<0>(b'{', b'}');
+}
+
+#[kani::proof]
+#[kani::unwind(18)]
+fn k_block_step_arr_w48() {
+    block_step_body::<48>(b'[', b']');
+}
+
+#[kani::proof]
+#[kani::unwind(18)]
+fn k_block_step_arr_w16() {
+    block_step_body::<16>(b'[', b']');
+}
+
+#[kani::proof]
+#[kani::unwind(18)]
+fn k_block_step_obj_w32() {
+    block_step_body::<32>(b'{', b'}');
+}
+
+/// C10 U-skip_container-tail: on every buffer of length <= N that starts (after the already
+/// consumed opening bracket) with the rest of a bracket-balanced container, the bitmap skipper
+/// (zero-padded tail block) stops exactly after the matching closing bracket; EOF otherwise.
+#[kani::proof]
+#[kani::unwind(10)]
+#[kani::stub(crate::error::Error::syntax, crate::error::verif_kani_error::syntax_cut)]
+fn u_skip_container_tail_n8() {
+    const N: usize = 8;
+    let buf: [u8; N] = kani::any();
+    let n: usize = kani::any();
+    kani::assume(n <= N);
+    // Precondition of the trusting skipper: a backslash occurs only inside a string (true of
+    // every well-formed document). The scalar machine and the bitmap treat a stray backslash
+    // before a quote differently, and neither reading matters for well-formed input.
+    let mut in_s = false;
+    let mut i = 0;
+    while i < n {
+        if in_s {
+            if buf[i] == b'\\' {
+                i += 1;
+            } else if buf[i] == b'"' {
+                in_s = false;
+            }
+        } else if buf[i] == b'"' {
+            in_s = true;
+        } else {
+            kani::assume(buf[i] != b'\\');
+        }
+        i += 1;
+    }
+    let arr: bool = kani::any();
+    let (left, right) = if arr { (b'[', b']') } else { (b'{', b'}') };
+    let mut p = mk(&buf[..n]);
+    let r = p.skip_container(left, right);
+    let expect = ref_container_end(&buf, n, 0, left, right);
+    match (&r, expect) {
+        (Ok(()), Some(e)) => assert_eq!(p.read.index(), e),
+        (Err(_), None) => {}
+        _ => panic!("skip_container differs from the bracket machine"),
+    }
+    kani::cover!(r.is_ok() && p.read.index() == N);
+    kani::cover!(r.is_err() && n == N);
+    kani::cover!(r.is_ok() && p.read.index() >= 6 && buf[1] == b'\\');
+    core::mem::forget(r);
+}
+
+// ---------------------------------------------------------------------------------------------
+// B: block (SIMD) paths. The buffer has a concrete length > 32 so that the 32-byte loops run;
+// bytes are neutral except in a symbolic window placed across a block edge. Loop bounds are
+// given per loop (plan.py `unwindset`, resolved from `cbmc --show-loops` on every run).
+// ---------------------------------------------------------------------------------------------
+
+fn windowed<const N: usize, const W: usize>(off: usize, fill: u8) -> [u8; N] {
+    let w: [u8; W] = kani::any();
+    let mut d = [fill; N];
+    let mut k = 0;
+    while k < W {
+        d[off + k] = w[k];
+        k += 1;
+    }
+    d
+}
+
+/// C02/C09/C14 B-skip_string: 40-byte buffer after the opening quote, symbolic window of 10
+/// bytes at offsets 24..34 (straddling the 32-byte block edge), a closing quote at 38.
+#[kani::proof]
+#[kani::unwind(4)]
+#[kani::stub(crate::error::Error::syntax, crate::error::verif_kani_error::syntax_cut)]
+#[kani::stub(core::arch::x86_64::_mm_max_epu8, crate::verif_kmodels::mm_max_epu8)]
+fn b_skip_string_w24() {
+    const N: usize = 40;
+    let mut buf = windowed::<N, 10>(24, b'x');
+    buf[38] = b'"';
+    let mut p = mk(&buf[..]);
+    let r = p.skip_string();
+    let expect = ref_string_end(&buf, N, 0);
+    match (&r, expect) {
+        (Ok(st), Some(end)) => {
+            assert_eq!(p.read.index(), end);
+            assert_eq!(*st == ParseStatus::HasEscaped, ref_has_backslash(&buf, 0, end));
+        }
+        (Err(_), None) => {}
+        _ => panic!("skip_string (block path): accept/reject differs from the RFC 8259 string grammar"),
+    }
+    kani::cover!(matches!(&r, Ok(ParseStatus::HasEscaped)) && p.read.index() == 39);
+    kani::cover!(r.is_ok() && p.read.index() == 33);
+    kani::cover!(r.is_err() && buf[31] == b'\\');
+    core::mem::forget(r);
+}
